@@ -15,7 +15,9 @@
   connections + folded bias = Σ incoming weight·source).
   Helper lemmas: Proofs/SolverFF.lean, Proofs/FastFF.lean, Proofs/SolverExact.lean.
 
-  Full statements NOT proved (hence the `_partial` names), with what is missing:
+  UPDATE: both full statements below are now proved in Props/C12Fast.lean (`fast_forward`, `fast_relax*`,
+  `fval_eq_eval`, `all_solvers_eval`); the `_partial` lemmas of this file are their building blocks.
+  What the `_partial` lemmas alone leave open (hence their names):
   * `fast_forward : k ≥ depth → outputs after LoadSensors; ForwardSteps k = fvalNode` and the same for `Relax` run for
     ≥ depth steps: the induction over rank layers on top of `fast_forward_partial` (as `Solver.sweeps_step` /
     `fwdLoop_ff` do for the standard solver), plus the bridge `adjacentMatrix[s][t] = weight of the connection s→t`
